@@ -100,16 +100,12 @@ def pairwise {α} (l : List α) (f : α → α → Bool) : Bool :=
   | x :: xs => xs.all (f x) && pairwise xs f
 
 /-! ## oracles -/
-/-- non-lattice polygon with three vertices (any three: clipping makes non-neighbours adjacent) collinear up to rounding
-(relative 1e-9) but not recognisably exact: the corner test and the boundary-counts-as-inside rule of the ear test are
-then decided by rounding errors, and `is_point_in_triangle` can even report `None` for a corner that rounding made
-"counter-clockwise", which aborts the whole triangulation — outside the property's domain ("farther than epsilon from
-degeneracy"); exact collinear configurations are covered by the lattice families.  Only evaluated on the rare
-`None`-for-a-valid-polygon path (O(n³), `n ≤ 150`). -/
+/-- three vertices (any three: clipping makes non-neighbours adjacent) of a non-lattice polygon are collinear up to
+rounding (relative 1e-9): the corner test and the boundary-counts-as-inside rule of the ear test are then decided by
+rounding errors.  Only evaluated on the rare `None`-for-a-valid-polygon path (O(n³)) to label the failure. -/
 def nearCollinearTriple (poly : Array (V2 Rat)) : Bool :=
   if poly.all C15.isLat2 then false else
   let n := poly.size
-  if n > 150 then true else
   (List.range n).any fun i => (List.range n).any fun j => j > i && (List.range n).any fun k => k > j &&
     (let a := poly.getD i ⟨0,0⟩; let b := poly.getD j ⟨0,0⟩; let c := poly.getD k ⟨0,0⟩
      decide (rabs (area2R a b c) ≤ (C15.ninf (b.sub a) * C15.ninf (c.sub a)) / 1000000000))
@@ -125,7 +121,8 @@ def oracleTri (poly : Array (V2 Rat)) (out : List String) : String :=
     if n < 3 then "pass" else
     if !simple then "pass" else
     if A ≤ 0 then "pass" else
-    if nearCollinearTriple poly then "skip within-epsilon-of-degeneracy" else "fail none-for-simple-ccw-polygon"
+    if nearCollinearTriple poly then "fail none-for-simple-ccw-polygon(nearly-collinear-vertices)"
+    else "fail none-for-simple-ccw-polygon"
   | "some" :: rest =>
     match run (do let t ← ptris; pend; pure t) rest with
     | none => "fail unparsable-output"
